@@ -70,6 +70,20 @@ Theorem invoke_later_keyword_wins : forall rec sc t pre tag ss kw r accA accK, t
 Proof. exact invoke_superseded_lemma. Qed.
 Print Assumptions invoke_later_keyword_wins.
 
+(* star parts: the args / kwargs spec is evaluated whenever it is given — nothing about the spec OBJECT (an empty chain is falsy
+   to Python) decides that — and the sequence / mapping it evaluates to is spliced in where the part stands *)
+Theorem invoke_star_kwargs_spliced : forall rec sc t tag name a r accA accK st i od kvs f st1 l,
+  2 <= tag -> rec sc t a st = (Ok (VDict i od kvs, f), st1) -> kw_of_dict kvs = Some l ->
+  invoke_loop rec sc t ((tag, [], [(name, a)]) :: r) accA accK st = invoke_loop rec sc t r accA (kw_update accK l) st1.
+Proof. exact invoke_star_kwargs_lemma. Qed.
+Print Assumptions invoke_star_kwargs_spliced.
+
+Theorem invoke_star_args_spliced : forall rec sc t tag a r accA accK st i xs f st1,
+  2 <= tag -> rec sc t a st = (Ok (VList i xs, f), st1) ->
+  invoke_loop rec sc t ((tag, [a], []) :: r) accA accK st = invoke_loop rec sc t r (accA ++ xs) accK st1.
+Proof. exact invoke_star_args_lemma. Qed.
+Print Assumptions invoke_star_args_spliced.
+
 (* non-vacuity *)
 Definition ex_t : val := VDict 1 false [(VStr "a", VDict 2 false [(VStr "b", VInt 7)]); (VStr "l", VList 3 [VInt 1; VInt 2; VInt 3])].
 Example ex_tuple : fst (glom_top true [] ex_t (STuple [SStr "a"; SStr "b"])) = Ok (VInt 7).
@@ -87,3 +101,7 @@ Example ex_invoke_run :
   r = Ok (VTuple 0 [VTuple 0 [VInt 1; VInt 10]; VDict 0 false [(VStr "b", VStr "cb"); (VStr "a", VInt 3)]]) /\
   map fst (log st) = [1; 3].
 Proof. vm_compute. split; reflexivity. Qed.
+Example ex_star_empty_chain : fst (glom_top true [] (VDict 1 false [(VStr "x", VInt 1); (VStr "y", VInt 2)])
+    (SInvoke (SFn FRec) [(2, [], [("", STuple [])])]))
+  = Ok (VTuple 0 [VTuple 0 []; VDict 0 false [(VStr "x", VInt 1); (VStr "y", VInt 2)]]).
+Proof. vm_compute. reflexivity. Qed.
